@@ -71,6 +71,8 @@ impl Write for Sink {
 pub enum Op {
     W(usize),
     WTrait(usize),
+    /// Write::write_all (the trait method, not write_all_defer_err)
+    WAllTrait(usize),
     Direct(usize),
     Digits(usize),
     Flush,
@@ -124,6 +126,8 @@ pub fn all_ops() -> Vec<Op> {
     }
     v.push(Op::WTrait(5));
     v.push(Op::WTrait(16385));
+    v.push(Op::WAllTrait(5));
+    v.push(Op::WAllTrait(16385));
     v.push(Op::Direct(3));
     v.push(Op::Direct(16384));
     for k in [1, 9, 12, 13, 16, 17] {
@@ -162,6 +166,7 @@ fn op_str(ops: &[Op]) -> String {
         .map(|o| match o {
             Op::W(n) => format!("w{}", n),
             Op::WTrait(n) => format!("t{}", n),
+            Op::WAllTrait(n) => format!("T{}", n),
             Op::Direct(n) => format!("d{}", n),
             Op::Digits(n) => format!("i{}", n),
             Op::Flush => "f".into(),
@@ -179,6 +184,7 @@ fn parse_ops(s: &str) -> Vec<Op> {
             match &x[..1] {
                 "w" => Op::W(n()),
                 "t" => Op::WTrait(n()),
+                "T" => Op::WAllTrait(n()),
                 "d" => Op::Direct(n()),
                 "i" => Op::Digits(n()),
                 "f" => Op::Flush,
@@ -231,6 +237,12 @@ pub fn run_seq(cfg: Cfg, ops: &[Op]) -> Option<(String, String)> {
                     match w.write(&v) {
                         Ok(k) if k == n => {}
                         other => bad!("C11 write calls succeed", "{}: Write::write returned {:?}", what, other.map_err(|e| e.kind())),
+                    }
+                }
+                Op::WAllTrait(n) => {
+                    let v = fresh(n, &mut written);
+                    if let Err(e) = w.write_all(&v) {
+                        bad!("C11 write calls succeed", "{}: Write::write_all returned {:?}", what, e.kind());
                     }
                 }
                 Op::Direct(n) => {
@@ -399,7 +411,7 @@ pub fn suite(_prop: &str, tier: &str, seed: u64) -> Report {
     rep.inputs = rep.runs;
     rep.nontrivial = rep.runs;
     rep.bound = format!(
-        "writer: every sequence of up to {} operations out of {} (write_all_defer_err of 0/1/7/16383/16384/16385/40000 bytes, Write::write, direct buffer writes of 3/16384 bytes, 6 integer extremes, flush_defer_err, Write::flush, check_io_error) under {} configurations (buffer empty / 14 / 1 bytes from full; sink accepting all / 4 / 16384 bytes per call, transient Interrupted, failing once or forever after 0/4/16384/16390 bytes), seeded longer sequences, and 26 integer values of all 12 types at the last 46 fill levels; built by from_write / from_boxed_dyn_write; the writer is dropped at the end of every sequence (a sink with an unreported failure must not be called by the drop either)",
+        "writer: every sequence of up to {} operations out of {} (write_all_defer_err of 0/1/7/16383/16384/16385/40000 bytes, Write::write and Write::write_all, direct buffer writes of 3/16384 bytes, 6 integer extremes, flush_defer_err, Write::flush, check_io_error) under {} configurations (buffer empty / 14 / 1 bytes from full; sink accepting all / 4 / 16384 bytes per call, transient Interrupted, failing once or forever after 0/4/16384/16390 bytes), seeded longer sequences, and 26 integer values of all 12 types at the last 46 fill levels; built by from_write / from_boxed_dyn_write; the writer is dropped at the end of every sequence (a sink with an unreported failure must not be called by the drop either)",
         n,
         ops_all.len(),
         cfgs.len()
